@@ -266,7 +266,11 @@ def ref_key(afi, safi, action, b, pid):
         k['rd'] = b[2:10].hex()
         k['prefix'] = (b[0], b[10:].hex())
     elif safi == 85:
+        # draft-mpmz-bess-mup-safi 3.1: [arch 1][type 2][len 1][rd 8][...]; ISD (1) and T1ST (3) start with a prefix
         k['rd'] = b[4:12].hex()
+        t = int.from_bytes(b[1:3], 'big')
+        if t in (1, 3) and len(b) > 12:
+            k['prefix'] = (t, b[12], b[13:13 + (b[12] + 7) // 8].hex())
     elif safi == 134:
         off = 2 if b[0] >= 0xF0 else 1
         k['rd'] = b[off:off + 8].hex()
@@ -386,6 +390,8 @@ def nlri_laws(afi, safi, action, b, pid):
             v.append((f'cross-addpath:{type(e).__name__}', f'{data.hex()}: {str(e)[:160]}'))
         v += ip_meaning(afi, safi, action, b, pid, o)
     elif not v:
+        if safi == 85:
+            v += mup_meaning(afi, b, o)
         # ADD-PATH negotiated for a family whose codec ignores it: must be ignored in both directions
         # (only looked at when the plain round trip holds: otherwise it is the same failure again)
         try:
@@ -434,6 +440,31 @@ def ip_meaning(afi, safi, action, b, pid, o):
             got = tuple(x[0] for x in j.get('label', []))
             if got != n[3]:
                 v.append(('meaning:labels', f'{b.hex()} has labels {n[3]}, json() says {got}'))
+    except Exception as e:  # noqa: BLE001
+        v.append((f'meaning:{type(e).__name__}', f'json() of {b.hex()} cannot be read back: {str(e)[:120]}'))
+    return v
+
+
+def mup_meaning(afi, b, o):
+    """MUP Interwork Segment Discovery (type 1) and Type 1 Session Transformed (type 3) routes: the prefix the object
+    reports is the prefix in the bytes (length in bits, ceil(length/8) octets, draft-mpmz-bess-mup-safi 3.1.1/3.1.3)."""
+    import ipaddress
+
+    t = int.from_bytes(b[1:3], 'big')
+    if t not in (1, 3) or len(b) <= 12:
+        return []
+    plen = b[12]
+    raw = b[13:13 + (plen + 7) // 8]
+    size = 4 if afi == 1 else 16
+    want = ipaddress.ip_network((raw + bytes(size - len(raw)), plen), strict=False)
+    v = []
+    try:
+        j = json.loads(o.json())
+        got = ipaddress.ip_network(f'{j["prefix_ip"]}/{j["prefix_ip_len"]}', strict=False)
+        if got != want:
+            v.append(('meaning:prefix', f'{b.hex()} is {want}, json() says {got}'))
+        if str(want.network_address) not in str(o) and str(want.network_address.exploded) not in str(o):
+            v.append(('meaning:prefix:str', f'{b.hex()} is {want}, str() says {str(o)[:120]}'))
     except Exception as e:  # noqa: BLE001
         v.append((f'meaning:{type(e).__name__}', f'json() of {b.hex()} cannot be read back: {str(e)[:120]}'))
     return v
